@@ -38,7 +38,7 @@ var (
 	strLits     = []string{"abc", "Xy", "", "a b", "A", "10", "abc ", " x", "b", "ab", "x IS NULL", "a LIKE b"}
 	oddStrLits  = []string{"a+b", "x,y", "CASE", "a(b", "it)", "AND", "-", "a=b", "1 + 1", "NULL", "a.b", "END", "x > 1", "%", "_a", "a\"b", "\""}
 	strVals     = []string{"abc", "Xy", "", "a b", "ABC", "abc ", "10", " x", "b", "ab", "a+b", "x,y", "a(b", "A", "a\"b"}
-	cmpOps      = []string{"=", "==", "!=", "<", "<=", ">", ">="}
+	cmpOps      = []string{"=", "==", "!=", "<>", "<", "<=", ">", ">="}
 )
 
 type g struct {
